@@ -27,11 +27,16 @@
     pk.meta <pathhex> <key,key,…|->                          → ok        (expandable method names of a class path, in order)
     pk.q <id>                                                → key,key,…|-   (one `cls.prop_keys()` call, cache threaded)
     pk.pure <id>                                             → key,key,…|-   (cache-free computation)
+    gs.name <id>                                             → class name at that id of Generated/NodeClasses.table
+    gs.row <id>                                              → key:L|O,…|-   (Generated/GetterShapes row: key and annotation flag, prop_keys() order)
+    gs.shape <id> <keyhex>                                   → L|O           (shape of the getter body: list / one node)
 -/
 import Tranp.Driver.Common
 import Tranp.Model.Procedure
 import Tranp.Model.PropKeys
 import Tranp.Model.ProcedureHistory
+import Tranp.Generated.NodeClasses
+import Tranp.Generated.GetterShapes
 
 namespace Tranp.Driver.Proc
 open Tranp Tranp.Procedure Tranp.Driver
@@ -209,6 +214,27 @@ def step (st : DSt) : List String → DSt × String
         (st, if v.isEmpty then "-" else ",".intercalate (v.map l2s))
       else (st, "bad-op")
     | none => (st, "bad-op")
+  | ["gs.name", id] =>
+    match id.toNat? with
+    | some i =>
+      match Generated.NodeClasses.table.classes[i]? with
+      | some c => (st, l2s c.name)
+      | none => (st, "bad-op")
+    | none => (st, "bad-op")
+  | ["gs.row", id] =>
+    match id.toNat? with
+    | some i =>
+      match Generated.GetterShapes.shapes[i]? with
+      | some row => (st, if row.isEmpty then "-" else ",".intercalate (row.map fun e => l2s e.1 ++ ":" ++ (if e.2.1 then "L" else "O")))
+      | none => (st, "bad-op")
+    | none => (st, "bad-op")
+  | ["gs.shape", id, key] =>
+    match id.toNat?, Str.unhex key with
+    | some i, some k =>
+      match (Generated.GetterShapes.shapes[i]?).bind (fun row => row.find? (fun e => e.1 == k)) with
+      | some e => (st, if e.2.2 then "L" else "O")
+      | none => (st, "bad-op")
+    | _, _ => (st, "bad-op")
   | _ => (st, "bad-op")
 
 def run : IO Unit := runFamily step ({} : DSt)
